@@ -56,22 +56,21 @@ namespace cnl {
     private:
         using result_type = decltype(std::declval<Lhs>() / std::declval<Rhs>());
 
-        template<typename LhsParam, typename RhsParam>
-        [[nodiscard]] constexpr auto step2(LhsParam const& lhs, RhsParam const& rhs) const
-                -> result_type
-        {
-            return (lhs < 0) ? -((_impl::abs(lhs) + (rhs - (lhs < 0 ? 1 : 0)) / 2) / rhs)
-                             : +((_impl::abs(lhs) + (rhs - (lhs < 0 ? 1 : 0)) / 2) / rhs);
-        }
-        [[nodiscard]] constexpr auto step1(Lhs const& lhs, Rhs const& rhs) const -> result_type
-        {
-            return (rhs < 0) ? step2(-lhs, -rhs) : step2(lhs, rhs);
-        }
-
     public:
         [[nodiscard]] constexpr auto operator()(Lhs const& lhs, Rhs const& rhs) const -> result_type
         {
-            return step1(lhs, rhs);
+            // floor division, then round up when twice the (divisor-signed) remainder
+            // reaches the divisor; no intermediate exceeds the range of the operands
+            auto const truncated = static_cast<result_type>(lhs / rhs);
+            auto const truncated_remainder = lhs % rhs;
+            auto const borrow = truncated_remainder != 0 && ((truncated_remainder < 0) != (rhs < 0));
+            auto const quotient = borrow ? static_cast<result_type>(truncated - 1) : truncated;
+            auto const up = borrow
+                                  ? ((rhs < 0) ? truncated_remainder + rhs <= -truncated_remainder
+                                               : truncated_remainder + rhs >= -truncated_remainder)
+                                  : ((rhs < 0) ? truncated_remainder <= rhs - truncated_remainder
+                                               : truncated_remainder >= rhs - truncated_remainder);
+            return (truncated_remainder != 0 && up) ? static_cast<result_type>(quotient + 1) : quotient;
         }
     };
 
